@@ -171,6 +171,17 @@ theorem C01_layout_block_resid_counterexample :
         [⟨1, 1, "X", none⟩, ⟨2, 2, "X", none⟩, ⟨3, 3, "X", none⟩]).toOption.map (fun st => st.mol.atoms.map (·.resid)) =
       some [1, 6, 11] := by decide
 
+/-- The hypothesis `hres` (the residue ids are CONTIGUOUS, `start, start+1, …`) of `C01_layout_partial` cannot be
+weakened to "pairwise distinct": vermouth's `merge_molecule` numbers a merged block `last resid + resid in the
+block`, so residue ids 1, 3 come out as 1, 2 (the real `MapToMolecule` does the same: checked on /repo HEAD, round 5).
+The property's quantifier asks for contiguous ids, so this is the boundary of the statement, not a finding. -/
+theorem C01_layout_gap_counterexample :
+    (addBlocks Ex.ff ⟨[(1, "GLY"), (2, "GLY")], [], []⟩
+        [⟨1, 1, "GLY", none⟩, ⟨2, 3, "GLY", none⟩]).toOption.map (fun st => st.mol.atoms.map (·.resid)) =
+      some [1, 1, 2, 2] ∧
+    (specMol Ex.ff ([⟨1, 1, "GLY", none⟩, ⟨2, 3, "GLY", none⟩] : List (ResNode Nat))).atoms.map (·.resid) =
+      [1, 1, 3, 3] := by decide
+
 /-! ### frame: links -/
 
 /-- **C01_frame_links** (`_partial`: missing are blocks with two interactions of the same key, hypothesis
